@@ -10,6 +10,17 @@ from mc.ref import typing as rt
 NT = len(gs.TOKENS)
 
 
+# nearly-valid queries that need more than one edit of a corpus query to be reached: every
+# non-singular shape as a comparison operand / ValueType argument, and the invalid corpus of C15
+HANDWRITTEN = [
+    "$[?@['a','b'] == 1]", "$[?@[0,1] == 1]", "$[?1 != $.x['a',0]]", "$[?@[0:1] == 1]", "$[?@[*] == 1]", "$[?@..a == 1]",
+    "$[?@[?@.a] == 1]", "$[?@.* == @.*]", "$[?$..a < 1]", "$[?@['a', 'b'] == @['a', 'b']]", "$[?@.a[0,0] >= 0]",
+    "$[?length(@['a','b']) == 1]", "$[?match(@[0,1], 'a')]", "$[?value(@.a) == @['a','a']]", "$[?@[1:2].a == 1]",
+    "$[?@['a'][*] != null]", "$[?(@['a','b']) == 1]", "$[?!(@[0,1] == 1)]", "$[?@.a == 1 || @['a','b'] == 2]",
+    "$[?count(@[?@['a','b'] == 1]) == 1]", "$[?@[?@[0,1] == 1]]", "$[?@[ 'a' , 'b' ] == 1]", "$[?@[0 , 1] == 1]",
+]
+
+
 def tok_depth(tier):
     return 4 if tier == "quick" else 5
 
@@ -22,6 +33,7 @@ def shards(tier, with_prefixes=False):
             out.append({"space": "tok", "i": i, "j": j, "rest": d - 2})
     out.append({"space": "tok_short"})
     out.append({"space": "tok_noroot"})
+    out.append({"space": "handwritten"})
     n = len(gs.corpus())
     for k in range(n):
         out.append({"space": "edit", "k": k})
@@ -39,6 +51,8 @@ def strings_of(desc):
         yield "$"
         for t in gs.TOKENS:
             yield "$" + t
+    elif sp == "handwritten":
+        yield from HANDWRITTEN
     elif sp == "tok_noroot":
         yield ""
         for t in gs.TOKENS:
